@@ -30,12 +30,12 @@ func (c06) Describe() CheckInfo {
 			"run through gopatch's real main() on the simulated filesystem; every tenth world is re-run with each operation of its fault-free run failed once (output stream at its first, last and a middle byte; neighbours' reads and writes, also persistently; kills): unmatched files must stay untouched and exit status 0 must still mean a complete echo; a case is non-trivial when it contains at least one file that cannot match by construction; " +
 			"distinct = distinct (template multiset, unmatched-file layout styles, flag set, patch channel) tuples",
 		Assumptions: []string{
-			"a file whose bytes lack the trigger identifier of every supplied change cannot be an instance of any '-' pattern (matcher false positives are property C01, not C06)",
+			"a file whose bytes lack the trigger identifier of every supplied change cannot be an instance of any '-' pattern; near-miss files mention the trigger but differ from the pattern in a token it spells out (variadic '...', '=', arity, receiver, package name) or carry it only in strings, comments and longer identifiers (other matcher false positives are property C01, not C06)",
 			"process-level observation: op log of the simulated os package, final inode state, stdout, stderr, exit status",
 		},
 		RealCode:       []string{"gopatch main()/runMain/mainCmd.Run, loader, patch.Parse/File.Apply, internal/*, go-flags, pkg/diff, x/tools/imports, go-intervals, go/parser, go/printer"},
 		Stubs:          []string{"package os (simulated filesystem, streams, exit)", "path/filepath filesystem half", "io/ioutil"},
-		RequiredProbes: []string{"unmatched-noncanonical", "unmatched-with-matching-neighbour", "print-only-echo", "diff-mode", "api-apply-unmatched", "verbose", "echo-adjacency-checked", "unmatched-readonly-or-odd-mode", "api-earlier-call-on-shared-patch", "fault-fired", "fault-on-stdout-in-print-mode", "many-files-under-descriptor-limit", "line-directive-names-sibling-file", "file-grows-between-walk-and-read", "underscore-or-dot-named-file"},
+		RequiredProbes: []string{"unmatched-noncanonical", "unmatched-with-matching-neighbour", "print-only-echo", "diff-mode", "api-apply-unmatched", "verbose", "echo-adjacency-checked", "unmatched-readonly-or-odd-mode", "api-earlier-call-on-shared-patch", "fault-fired", "fault-on-stdout-in-print-mode", "many-files-under-descriptor-limit", "line-directive-names-sibling-file", "file-grows-between-walk-and-read", "underscore-or-dot-named-file", "unmatched-near-miss"},
 	}
 }
 
@@ -81,10 +81,15 @@ func (c06) Gen(env *Env, seed uint64, tier string, i int) *Case {
 				cc := corpus[r.Intn(len(corpus))]
 				data = append([]byte(nil), cc.Inputs[r.Intn(len(cc.Inputs))].Data...)
 				note = "corpus:" + cc.Name
+			} else if r.Chance(1, 3) {
+				// mentions the triggers, and still nothing in it is an instance
+				data = NearMissFile(r, all, style, r.Pick(plainHeaders))
+				note = "near-miss:" + style
+				c.Extra["near_miss"] = "1"
 			} else {
 				data = NonMatchingFile(r, style, r.Pick(plainHeaders))
 			}
-			if ContainsAny(data, triggers) || ContainsAny(data, []string{"Code generated", "@generated"}) {
+			if !strings.HasPrefix(note, "near-miss:") && ContainsAny(data, triggers) || ContainsAny(data, []string{"Code generated", "@generated"}) {
 				continue
 			}
 			fname := fmt.Sprintf("%snm%d.go", dir, j)
@@ -324,8 +329,16 @@ func (c06) Eval(env *Env, c *Case) []Violation {
 	init := c.InitialState()
 	r := env.Run(c.Spec)
 	if r.Outcome != OutExit {
-		// crashes and hangs are property C08's business; nothing to judge here
+		// crashes and hangs are property C08's business -- except that a run over
+		// nothing but unmatched files is promised to succeed
 		env.Probe("run-did-not-exit")
+		only := len(c.Files) > 0
+		for _, f := range c.Files {
+			only = only && f.Role == "nomatch"
+		}
+		if only && r.Outcome == OutCrash && c.Extra["ill_patch"] == "" {
+			return []Violation{{Oracle: "exit", Signature: "C06/exit/crashed", Detail: fmt.Sprintf("every file of the run is unmatched, and gopatch crashed instead of exiting with status 0: %s [args %v]", clip(r.Panic, 600), c.Spec.Args)}}
+		}
 		return nil
 	}
 	mode := c.Flags.String()
@@ -365,6 +378,9 @@ func (c06) Eval(env *Env, c *Case) []Violation {
 	}
 	if c.Extra["underscore_named"] == "1" {
 		env.Probe("underscore-or-dot-named-file")
+	}
+	if c.Extra["near_miss"] == "1" {
+		env.Probe("unmatched-near-miss")
 	}
 	apiCache := map[int]Applier{}
 	stdoutPos := 0
